@@ -35,7 +35,7 @@ def repo_root():
 
 def _hash(repo, san):
     h = hashlib.sha1()
-    h.update(b"v3 san=%d" % int(bool(san)))
+    h.update(b"v4 san=%d" % int(bool(san)))
     for mod, rel in sorted(NATIVES.items()):
         p = os.path.join(repo, "src", rel)
         with open(p, "rb") as f:
@@ -68,9 +68,13 @@ def ensure(repo=None, san=False, quiet=True):
             out = so_path(tmp, mod)
             if rel.endswith(".pyx"):
                 csrc = os.path.join(tmp, mod + ".c")
+                # As the project's own build does it: `make build` (run by setup.py) pre-generates
+                # templ/{node,nodes,evaluate}.c with plain `cython -3`, so setup.py's
+                # boundscheck/wraparound=False directives only ever reach refine/_core.pyx.
+                directives = (["-X", "boundscheck=False", "-X", "wraparound=False"]
+                              if rel.endswith("_core.pyx") else [])
                 subprocess.run(
-                    [CYTHON, "-3", "-X", "boundscheck=False", "-X", "wraparound=False",
-                     src, "-o", csrc],
+                    [CYTHON, "-3"] + directives + [src, "-o", csrc],
                     check=True, stdout=subprocess.PIPE, stderr=subprocess.PIPE,
                 )
                 src_c, cc = csrc, ("clang" if san else "gcc")
